@@ -8,6 +8,7 @@ lena objects and, in the other direction, rank-abstracts recorded float meshes f
 """
 import copy
 import math
+import signal
 import sys
 
 from . import core
@@ -20,6 +21,35 @@ def nextup(x):
 
 def nextdown(x):
     return math.nextafter(x, -math.inf)
+
+
+# --------------------------------------------------------------------------- watchdog
+class Hang(Exception):
+    """The implementation did not return within a generous time limit."""
+
+
+class watchdog(object):
+    """with watchdog(10): ...   raises Hang inside the block when it runs longer than the limit
+    (a non-terminating search loop must be reported, not hang the check)."""
+
+    def __init__(self, seconds):
+        self.seconds = seconds
+
+    def _fire(self, signum, frame):
+        raise Hang("no return within %s s" % self.seconds)
+
+    def __enter__(self):
+        self.old = signal.signal(signal.SIGALRM, self._fire)
+        signal.setitimer(signal.ITIMER_REAL, self.seconds)
+        return self
+
+    def __exit__(self, *exc):
+        signal.setitimer(signal.ITIMER_REAL, 0)
+        signal.signal(signal.SIGALRM, self.old)
+        return False
+
+
+LIMIT = 20   # seconds for one scenario on the real code (microseconds are normal)
 
 
 # --------------------------------------------------------------------------- embeddings
@@ -142,8 +172,16 @@ class Reporter(object):
     def __init__(self, ctx, cap=40):
         self.ctx = ctx
         self.cap = cap
+        self.hangs = 0
+
+    @property
+    def give_up(self):
+        """After a few hangs of the implementation the remaining scenarios are skipped (each costs LIMIT s)."""
+        return self.hangs >= 3
 
     def __call__(self, key, detail):
+        if key.endswith(":Hang"):
+            self.hangs += 1
         if len(self.ctx.violations) < self.cap:
             self.ctx.violation(key, detail)
         elif not any(v[0] == "too-many-violations" for v in self.ctx.violations):
@@ -161,6 +199,8 @@ def replay_fills(ctx, rec, embs, report, tuples=False):
     dim = len(gedges)
     shape = [len(e) - 1 for e in gedges]
     for emb in embs:
+        if report.give_up:
+            break
         fs = [emb.make(e) for e in gedges]
         real = [[fs[d](k) for k in gedges[d]] for d in range(dim)]
         if tuples:
@@ -187,18 +227,19 @@ def replay_fills(ctx, rec, embs, report, tuples=False):
             detail = {"embedding": emb.name, "edges": repr(edges_arg), "coord": repr(coord), "weight": repr(w),
                       "fill_no": j, "spec": f, "kind": rec["kind"]}
             try:
-                if el is None:
-                    if f["w"] == 1 and emb.wmul == 1 and j % 2:
-                        hist.fill(coord)              # default weight
+                with watchdog(LIMIT):
+                    if el is None:
+                        if f["w"] == 1 and emb.wmul == 1 and j % 2:
+                            hist.fill(coord)              # default weight
+                        else:
+                            hist.fill(coord, w)
                     else:
-                        hist.fill(coord, w)
-                else:
-                    w = 1
-                    el.fill(coord if j % 2 else (coord, {"n": j}))
-                    res = list(el.compute())
-                    hist = res[0][0]
-                idx = S.get_bin_on_value(coord, edges_arg)
-                idx1 = S.get_bin_on_value_1d(coord, edges_arg) if dim == 1 else None
+                        w = 1
+                        el.fill(coord if j % 2 else (coord, {"n": j}))
+                        res = list(el.compute())
+                        hist = res[0][0]
+                    idx = S.get_bin_on_value(coord, edges_arg)
+                    idx1 = S.get_bin_on_value_1d(coord, edges_arg) if dim == 1 else None
             except Exception as exc:   # noqa
                 report("fill:%s:%s:raised:%s" % (where, pos, exc_name(exc)), dict(detail, exception=repr(exc)))
                 break
@@ -230,12 +271,15 @@ def replay_search(ctx, recs, embs, report):
     n = 0
     for emb in embs:
         for rec in recs:
+            if report.give_up:
+                return n
             f = emb.make(rec["arr"])
             arr = [f(k) for k in rec["arr"]]
             val = f(rec["val"])
             try:
-                got = S.get_bin_on_value_1d(val, arr)
-                got2 = S.get_bin_on_value(val, arr)
+                with watchdog(LIMIT):
+                    got = S.get_bin_on_value_1d(val, arr)
+                    got2 = S.get_bin_on_value(val, arr)
             except Exception as exc:   # noqa
                 report("get_bin_on_value_1d:%s:n=%d:%s:raised:%s" % (emb.name, len(arr), pos_class(rec["val"], rec["arr"]),
                                                                    exc_name(exc)),
@@ -346,17 +390,20 @@ def record_session(rnd, report, max_cells=200):
     out = []
     redges = [[rmaps[d][x] for x in axes[d]] for d in range(dim)]
     for j, c in enumerate(coords):
+        if report.give_up:
+            return out
         wi = 1 if el is not None else rnd.randint(-12, 12)
         w = wi if wden == 1 else wi / float(wden)
         coord = c[0] if dim == 1 else (tuple(c) if j % 2 else list(c))
         key = "random:%s:dim=%d:%s" % (kind, dim, "+".join(kinds))
         try:
-            if el is None:
-                hist.fill(coord, w)
-            else:
-                el.fill(coord if j % 3 else (coord, {"j": j}))
-                hist = list(el.compute())[0][0]
-            idx = list(S.get_bin_on_value(coord, edges_arg))
+            with watchdog(LIMIT):
+                if el is None:
+                    hist.fill(coord, w)
+                else:
+                    el.fill(coord if j % 3 else (coord, {"j": j}))
+                    hist = list(el.compute())[0][0]
+                idx = list(S.get_bin_on_value(coord, edges_arg))
         except Exception as exc:   # noqa
             report(key + ":raised:" + exc_name(exc), {"edges": repr(edges_arg), "coord": repr(coord),
                                                      "exception": repr(exc)})
@@ -432,10 +479,13 @@ def record_searches(rnd, n, report):
     tr = SearchTracer(func)
     out = []
     for _ in range(n):
+        if report.give_up:
+            break
         arr, kind = gen_axis(rnd, rnd.randint(2, 12))
         val = gen_coord(rnd, arr)
         try:
-            res, steps = tr.run(func, val, arr)
+            with watchdog(LIMIT):
+                res, steps = tr.run(func, val, arr)
         except Exception as exc:   # noqa
             report("random:get_bin_on_value_1d:%s:raised:%s" % (kind, exc_name(exc)),
                    {"arr": repr(arr), "val": repr(val), "exception": repr(exc)})
@@ -475,3 +525,49 @@ def mc_export(ctx, module, cfg, must_cover=(), min_records=1, timeout=3000):
     if len(res.records) < min_records:
         raise core.MachineryError("TLC %s/%s produced %d records" % (module, cfg, len(res.records)))
     return res.records
+
+
+# --------------------------------------------------------------------------- Apalache (optional extra)
+def apalache_obligations(ctx, obligations, timeout=240):
+    """Run inductive-invariant checks with Apalache in parallel.  obligations: list of
+    (module, init, inv, length).  A counterexample is a design-level failure (MachineryError, like a
+    failing ctx.mc); a stall / missing tool is recorded as skipped, never as a failure."""
+    import os
+    import shutil
+    import subprocess
+    import time
+    exe = shutil.which("apalache-mc")
+    notes = []
+    if exe is None:
+        ctx.extra["apalache"] = ["skipped: apalache-mc not found"]
+        return
+    procs = []
+    for k, (module, init, inv, length) in enumerate(obligations):
+        out = os.path.join(ctx.workdir, "apa%d" % k)
+        os.makedirs(out, exist_ok=True)
+        cmd = [exe, "check", "--cinit=CInit", "--init=" + init, "--inv=" + inv, "--length=%d" % length,
+               "--out-dir=" + out, os.path.join(core.SPEC, module + ".tla")]
+        e = dict(os.environ)
+        e.pop("JAVA_TOOL_OPTIONS", None)
+        procs.append((module, init, inv, length, time.time(),
+                      subprocess.Popen(cmd, cwd=out, env=e, stdout=subprocess.PIPE, stderr=subprocess.STDOUT)))
+    failed = []
+    for module, init, inv, length, t0, p in procs:
+        label = "%s: --init=%s --inv=%s --length=%d" % (module, init, inv, length)
+        try:
+            outb, _ = p.communicate(timeout=max(1, timeout - (time.time() - t0)))
+            text = outb.decode("utf-8", "replace")
+        except subprocess.TimeoutExpired:
+            p.kill()
+            p.communicate()
+            notes.append("skipped (stalled > %d s): %s" % (timeout, label))
+            continue
+        if p.returncode == 0 and "EXITCODE: OK" in text:
+            notes.append("proved in %.0f s: %s" % (time.time() - t0, label))
+        elif p.returncode == 12:
+            failed.append((label, text[-1500:]))
+        else:
+            notes.append("skipped (apalache exit %s): %s" % (p.returncode, label))
+    ctx.extra["apalache"] = notes
+    if failed:
+        raise core.MachineryError("Apalache found a counterexample to %s:\n%s" % failed[0])
